@@ -178,6 +178,25 @@ def expected_select(out):
     return "OK S " + " ".join("%d:%s=%s" % (i + 1, enc(n), fmt_sources(s)) for i, (n, s) in enumerate(out))
 
 
+def failed_scope_pair(rng, cat):
+    """two statements over one catalogue: the first registers a WITH table / derived-table alias named like a base table and then fails; the second
+    reads that base table.  On one analyser, one after the other, the second must be answered as if the first had never been seen."""
+    ts = [t for t in cat.tables if t[0] is None and sum(1 for u in cat.tables if u[1] == t[1]) == 1]
+    if not ts:
+        return []
+    t = rng.choice(ts)
+    c = t[2][0]
+    k = rng.random()
+    if k < 0.4:
+        s1 = "WITH %s AS (SELECT 1 AS zz9) SELECT nosuch9.q FROM %s" % (t[1], t[1])
+    elif k < 0.7:
+        s1 = "SELECT nosuch9.q FROM (SELECT 1 AS zz9) %s" % t[1]
+    else:
+        s1 = "WITH %s AS (SELECT 1 AS zz9), w9 AS (SELECT nosuch9.q FROM %s) SELECT zz9 FROM %s" % (t[1], t[1], t[1])
+    s2 = "SELECT %s AS o1 FROM %s" % (c, t[1])
+    return [(cat, s1, "ERR AnalyzerErr", None), (cat, s2, expected_select([("o1", {src(t, c)})]), [cat.key(t)])]
+
+
 def case(rng, cat=None):
     """one (catalogue, text, expected body, expected asked keys or None) tuple; with `cat` given, another statement over that catalogue"""
     kind = rng.random()
